@@ -19,10 +19,10 @@ META = dict(
     property="C35",
     level="exploration",
     technique="metamorphic segmentation invariance + single-byte fault injection on a real in-memory SSH transport pair (real KEX), complete cipher x MAC x compression matrix, complete per-byte tamper sweep of one packet per combination",
-    level_text="Every offered cipher x MAC x compression combination (7 x 5 x 2 on this cryptography build; 3des-ctr is not offered) is exercised in both directions; random payload sequences (0..40 KiB, message numbers 50..255), random segmentations of the handshake and of the data stream (incl. byte-wise), generated banner lines before the server's version line, optional re-key (either side) in mid-stream, and one XOR-ed byte at a generated offset of one generated packet. Per combination one short packet is tampered at every byte offset (complete sweep). Exploration, not proof.",
+    level_text="Every offered cipher x MAC x compression combination (7 x 5 x 2 on this cryptography build; 3des-ctr is not offered) is exercised in both directions; random payload sequences (0..40 KiB, message numbers 50..255), random segmentations of the handshake and of the data stream (incl. byte-wise), generated banner lines before the server's version line, optional re-key (either side) in mid-stream, and one XOR-ed byte at a generated offset of one generated packet. Per combination one short packet is tampered at every byte offset (complete sweep). In a third of the random cases and once per combination client and server offer different preference lists (the RFC 4253 7.1 choice must be made identically by both sides). Exploration, not proof.",
     level_note="Trusted: cryptography/OpenSSL, zlib, the in-memory wire double (stops delivering to a side after it called loseConnection, like a TCP transport). sendPacket is observed through a pass-through probe on the instance (original method runs unchanged). Banner lines are sent by the server only (RFC 4253 4.2) and kept small enough that banner+version+KEXINIT < 4096 bytes in every segmentation (the 4 KiB pre-version guard is not part of the statement). Tampering is injected on the data direction only.",
     design_ref="§5 C35",
-    rule="case = (cipher, mac, compression, direction, banner lines, handshake segment sizes, op list [send(num,payload) | rekey(side) | deliver(n) | back(n)], data segment sizes, optional (write index, offset, xor mask)). non-trivial = a payload packet spanning >= 3 cipher blocks reached the receiver in >= 3 segments, or a tamper that hit a written packet; distinct by the whole case.",
+    rule="case = (cipher, mac, compression [or a preference list of each per side, negotiated per RFC 4253 7.1], direction, banner lines, handshake segment sizes, op list [send(num,payload) | rekey(side) | deliver(n) | back(n)], data segment sizes, optional (write index, offset, xor mask)). non-trivial = a payload packet spanning >= 3 cipher blocks reached the receiver in >= 3 segments, or a tamper that hit a written packet; distinct by the whole case.",
 )
 
 CIPHERS = None
@@ -168,17 +168,33 @@ def _build(case):
     f.startFactory()
     s = f.buildProtocol(None)
     c = Client()
-    for t in (s, c):
+    offer = case.get("offer")
+    for t, who in ((s, "s"), (c, "c")):
         t._obs_init()
-        t.supportedCiphers = [case["cipher"].encode()]
-        t.supportedMACs = [case["mac"].encode()]
-        t.supportedCompressions = [case["comp"].encode()]
+        if offer:
+            # each side offers its own preference list (RFC 4253 7.1: the
+            # first algorithm on the client's list that the server also lists)
+            t.supportedCiphers = [x.encode() for x in offer[who]["ciphers"]]
+            t.supportedMACs = [x.encode() for x in offer[who]["macs"]]
+            t.supportedCompressions = [x.encode() for x in offer[who]["comps"]]
+        else:
+            t.supportedCiphers = [case["cipher"].encode()]
+            t.supportedMACs = [case["mac"].encode()]
+            t.supportedCompressions = [case["comp"].encode()]
         t.supportedKeyExchanges = [b"curve25519-sha256"]
     sw = Wire(b"".join(case.get("banner") or []))
     cw = Wire()
     s.makeConnection(sw)
     c.makeConnection(cw)
     return s, c, sw, cw
+
+
+def ref_negotiate(client, server):
+    """RFC 4253 7.1: first name on the client's list that is also on the server's."""
+    for name in client:
+        if name in server:
+            return name
+    return None
 
 
 def _cyc(sizes, i):
@@ -197,6 +213,12 @@ def run_case(ctx, case):
     ciphers, macs, comps = _offered()
     if case["cipher"] not in ciphers or case["mac"] not in macs or case["comp"] not in comps:
         raise HarnessError("case names an algorithm this build does not offer: %r" % (case,))
+    offer = case.get("offer")
+    if offer:
+        for kind, field, pool in (("ciphers", "cipher", ciphers), ("macs", "mac", macs), ("comps", "comp", comps)):
+            lc, ls = offer["c"][kind], offer["s"][kind]
+            if any(x not in pool for x in lc + ls) or ref_negotiate(lc, ls) != case[field]:
+                raise HarnessError("offer lists do not negotiate to the case's %s" % field)
     banner = case.get("banner") or []
     for ln in banner:
         if not ln.endswith(b"\n") or b"\n" in ln[:-1] or ln.startswith(b"SSH-"):
@@ -458,6 +480,12 @@ def run_case(ctx, case):
     ctx.count(f"mac={case['mac']}")
     ctx.count(f"comp={case['comp']}")
     ctx.count(f"dir={case['dir']}")
+    if offer:
+        ctx.count("offer: preference lists")
+        asym = [k for k in ("ciphers", "macs", "comps")
+                if ref_negotiate(offer["c"][k], offer["s"][k]) != ref_negotiate(offer["s"][k], offer["c"][k])]
+        for k in asym:
+            ctx.count(f"offer: client and server prefer different {k}")
     if state["rekeys"]:
         ctx.count("with rekey")
     nt = hit is not None
@@ -510,6 +538,17 @@ def _sweep_cases(ctx, idx):
         yield base
         yield dict(base, segs=[1])
         yield dict(base, segs=[5, 13], hs=[9], banner=[b"hello\r\n", b"\n", b"world\n"])
+        # both sides offer two algorithms of each kind in opposite preference
+        # order: the client's preference (this combination) must win on both sides
+        ciphers, macs, comps = _offered()
+        oc = ciphers[(ciphers.index(c) + 1 + idx) % len(ciphers)]
+        om = macs[(macs.index(m) + 1 + idx) % len(macs)]
+        oz = comps[(comps.index(z) + 1) % len(comps)]
+        pair = lambda a, b: [a] if a == b else [a, b]
+        rpair = lambda a, b: [a] if a == b else [b, a]
+        yield dict(base, segs=[7], ops=base["ops"] + [("rekey", "R"), ("send", 203, b"after rekey")],
+                   offer=dict(c=dict(ciphers=pair(c, oc), macs=pair(m, om), comps=pair(z, oz)),
+                              s=dict(ciphers=rpair(c, oc), macs=rpair(m, om), comps=rpair(z, oz))))
         # quick: the sweep is over cipher x MAC (compression does not take part
         # in tamper detection: the MAC is checked first); thorough: all.
         if not ctx.thorough and z != ["none", "zlib"][(idx // 2) % 2]:
@@ -594,12 +633,25 @@ def _strategy(thorough):
                   st.one_of(st.integers(1, 255), st.sampled_from([1, 2, 4, 8, 16, 32, 64, 128]))),
         st.tuples(st.integers(0, 8), st.integers(0, 5), st.integers(1, 255)),   # aim at the length bytes
     )
-    return st.builds(
+    single = st.builds(
         dict,
         cipher=st.sampled_from(ciphers), mac=st.sampled_from(macs), comp=st.sampled_from(comps),
         dir=st.sampled_from(["c2s", "s2c"]),
         banner=banner, hs=size_list, segs=size_list, ops=ops, corrupt=corrupt,
     )
+
+    def prefs(pool):
+        # (client list, server list): permuted sub-lists with a common element
+        sub = st.lists(st.sampled_from(pool), min_size=1, max_size=min(4, len(pool)), unique=True)
+        return st.tuples(sub, sub).filter(lambda t: ref_negotiate(t[0], t[1]) is not None)
+
+    def with_offer(t):
+        base, (cc, sc), (cm, sm), (cz, sz) = t
+        return dict(base, cipher=ref_negotiate(cc, sc), mac=ref_negotiate(cm, sm), comp=ref_negotiate(cz, sz),
+                    offer=dict(c=dict(ciphers=cc, macs=cm, comps=cz), s=dict(ciphers=sc, macs=sm, comps=sz)))
+
+    listed = st.tuples(single, prefs(ciphers), prefs(macs), prefs(comps)).map(with_offer)
+    return st.one_of(single, single, listed)
 
 
 def _hyp_shard(ctx, i):
